@@ -1,7 +1,204 @@
-(* C33 - Manifest naming and latest-version discovery are exact. Property theorems only. *)
+(* C33 - Manifest naming and latest-version discovery are exact. Property theorems only.
+   Model: Store/Model_Naming.v (file names are byte lists); proofs: Store/Proofs_Naming.v.
+   attached v := v < 2^63;  detached v := 2^63 <= v <= 2^64-1;
+   junk f := valid_entry f = None  (the scheme of f is not detected, or its version does not parse:
+   detached manifests, staging copies, temporary files, anything else). *)
+From Coq Require Import Permutation Sorting.Sorted.
 From LanceV Require Import Common.Base Store.Model_Naming Store.Proofs_Naming.
 Local Open Scope N_scope.
 
-Theorem C33_scheme_eqb : forall a b, scheme_eqb a b = true <-> a = b.
-Proof. exact scheme_eqb_eq. Qed.
-Print Assumptions C33_scheme_eqb.
+(* ---- decimal printing / parsing (every u64) ---- *)
+Theorem C33_decimal_roundtrip : forall v, v <= u64max ->
+  parse_u64 (to_dec v) = Some v /\ parse_u64 (pad20 v) = Some v /\ length (pad20 v) = 20%nat /\
+  parse_u64 (c_plus :: to_dec v) = Some v.
+Proof.
+  intros v Hv. split; [apply parse_u64_to_dec; exact Hv|]. split; [apply parse_u64_pad20; exact Hv|].
+  split; [apply pad20_length|].
+  apply parse_u64_spec. exists (to_dec v). split; [right; reflexivity|]. split; [apply to_dec_nonempty|].
+  split; [apply to_dec_digit|]. split; [apply dval_to_dec; assumption | assumption].
+Qed.
+Print Assumptions C33_decimal_roundtrip.
+
+(* what u64::from_str accepts, exactly: an optional '+', then a non-empty digit string whose value fits *)
+Theorem C33_parse_u64_exact : forall s v,
+  parse_u64 s = Some v <->
+  exists ds, (s = ds \/ s = c_plus :: ds) /\ ds <> [] /\ Forall digit ds /\ dval 0 ds = v /\ v <= u64max.
+Proof. exact parse_u64_spec. Qed.
+Print Assumptions C33_parse_u64_exact.
+
+Theorem C33_parse_u64_overflow_rejected : forall ds, Forall digit ds -> u64max < dval 0 ds ->
+  parse_u64 ds = None /\ parse_u64 (c_plus :: ds) = None.
+Proof. exact parse_u64_overflow. Qed.
+Print Assumptions C33_parse_u64_overflow_rejected.
+
+(* ---- name <-> version round trip, both schemes, every attached version ---- *)
+Theorem C33_roundtrip : forall (s : scheme) (v : N), v < 2 ^ 63 ->
+  parse_version s (manifest_name s v) = Some v /\
+  detect_scheme (manifest_name s v) = Some s /\
+  valid_entry (manifest_name s v) = Some (s, manifest_name s v).
+Proof.
+  intros s v Hv. change (2 ^ 63) with two63 in Hv.
+  split; [apply parse_version_attached; exact Hv|].
+  split; [apply detect_scheme_attached; exact Hv | apply valid_entry_attached; exact Hv].
+Qed.
+Print Assumptions C33_roundtrip.
+
+Theorem C33_names_injective : forall s v1 v2, v1 <= u64max -> v2 <= u64max ->
+  manifest_name s v1 = manifest_name s v2 -> v1 = v2.
+Proof. exact manifest_name_inj. Qed.
+Print Assumptions C33_names_injective.
+
+(* ---- detached and attached names never confuse each other ---- *)
+Theorem C33_detached_separate : forall (s s' : scheme) (d : N), 2 ^ 63 <= d <= u64max ->
+  parse_version s' (manifest_name s d) = None /\          (* never parses as an attached version *)
+  valid_entry (manifest_name s d) = None /\               (* never a candidate for "latest" *)
+  detect_scheme (manifest_name s d) = Some V2 /\
+  manifest_name V1 d = manifest_name V2 d /\
+  (exists digits, manifest_name s d = c_d :: digits ++ DOT_EXT /\ parse_u64 digits = Some d) /\
+  (forall v, v < 2 ^ 63 ->
+     manifest_name s' v <> manifest_name s d /\ starts_with [c_d] (manifest_name s' v) = false).
+Proof.
+  intros s s' d Hd. change (2 ^ 63) with two63 in *. assert (D : detached d) by exact Hd.
+  split; [apply parse_version_detached; exact D|].
+  split; [apply valid_entry_detached; exact D|].
+  split; [apply detect_scheme_detached; exact D|].
+  split; [apply detached_name_scheme_free; exact D|].
+  split; [apply detached_name_carries_version; exact D|].
+  intros v Hv. split; [apply attached_detached_names_differ; assumption | apply attached_name_no_d; exact Hv].
+Qed.
+Print Assumptions C33_detached_separate.
+
+(* ---- V2 names sort in reverse version order ---- *)
+Theorem C33_v2_order : forall v1 v2, v1 < 2 ^ 63 -> v2 < 2 ^ 63 ->
+  (v1 < v2 <-> lex_ltb (manifest_name V2 v2) (manifest_name V2 v1) = true).
+Proof.
+  intros v1 v2 H1 H2. change (2 ^ 63) with two63 in *. rewrite v2_name_order by assumption.
+  symmetry. apply N.ltb_lt.
+Qed.
+Print Assumptions C33_v2_order.
+
+(* ---- staging copies and temporary files ---- *)
+(* any name whose last byte is not 't' (uuid suffixes end in a hex digit) is junk; staging copies keep their scheme *)
+Theorem C33_staging : forall v suffix,
+  (forall x b, b <> 116 -> valid_entry (x ++ [b]) = None) /\
+  (v <= u64max -> detect_scheme_staging (pad20 v ++ DOT_EXT ++ suffix) = V2) /\
+  (v < 2 ^ 63 -> Forall (fun c => c <> c_dot) suffix -> detect_scheme_staging (to_dec v ++ DOT_EXT ++ suffix) = V1).
+Proof.
+  intros v suffix. split; [exact valid_entry_none_by_last|]. split.
+  - apply detect_scheme_staging_v2.
+  - intro Hv. change (2 ^ 63) with two63 in Hv. apply detect_scheme_staging_v1. exact Hv.
+Qed.
+Print Assumptions C33_staging.
+
+(* ---- latest-version discovery ----
+   For EVERY directory made of the manifests of attached versions [vs] under one scheme [s] plus arbitrary junk
+   (the junk seen by read_dir and by the store listing may differ), EVERY order in which read_dir and the store
+   list it, both values of is_local, and both values of the lexical-order flag (when set, the listing is sorted):
+   the answer is the highest attached version under its canonical name, NotFound iff there is none.
+   Never an error, never a panic. *)
+Theorem C33_latest : forall (s : scheme) (vs : list N) (junk_rd junk_ls : list name)
+                            (is_local lexical : bool) (read_dir listing : list name),
+  Forall (fun v => v < 2 ^ 63) vs ->
+  Forall junk junk_rd -> Forall junk junk_ls ->
+  Permutation read_dir (map (manifest_name s) vs ++ junk_rd) ->
+  Permutation listing (map (manifest_name s) vs ++ junk_ls) ->
+  (lexical = true -> StronglySorted (fun a b => lex_ltb b a = false) listing) ->
+  current_manifest_path is_local lexical read_dir listing =
+  match vs with
+  | [] => NotFound
+  | _ => Found (fold_right N.max 0 vs) (manifest_name s (fold_right N.max 0 vs)) s
+  end.
+Proof. exact latest_exact. Qed.
+Print Assumptions C33_latest.
+
+(* ---- listing all versions ---- *)
+Theorem C33_list : forall (s : scheme) (vs : list N) (jk listing : list name) (sorted lexical : bool),
+  Forall (fun v => v < 2 ^ 63) vs -> Forall junk jk ->
+  Permutation listing (map (manifest_name s) vs ++ jk) ->
+  (lexical = true -> StronglySorted (fun a b => lex_ltb b a = false) listing) ->
+  Permutation (list_manifest_locations sorted lexical listing) (map (fun v => (v, manifest_name s v, s)) vs) /\
+  (sorted = true ->
+     StronglySorted (fun a b => loc_version b <= loc_version a) (list_manifest_locations sorted lexical listing)) /\
+  (sorted = true -> NoDup vs ->
+     StronglySorted (fun a b => loc_version b < loc_version a) (list_manifest_locations sorted lexical listing)).
+Proof.
+  intros s vs jk listing sorted lexical Hvs Hjk P Hs.
+  destruct (list_exact s vs jk listing sorted lexical Hvs Hjk P Hs) as [H1 H2].
+  split; [exact H1|]. split; [exact H2|].
+  intros -> ND. eapply list_sorted_strict; eassumption.
+Qed.
+Print Assumptions C33_list.
+
+(* ---- migration to V2 names ----
+   general form: every file moves to [target] of its name, contents untouched, provided no two files end up under
+   the same name and every V1-detected name parses; the result is a fixed point of the migration. *)
+Theorem C33_migrate_exact : forall d : dir,
+  NoDup (map target (map fst d)) ->
+  (forall f, In f (map fst d) -> is_v1_name f = true -> parse_version V1 f <> None) ->
+  exists d', migrate_scheme_to_v2 d = Ok d' /\
+             Permutation d' (map (fun e => (target (fst e), snd e)) d) /\
+             migrate_scheme_to_v2 d' = Ok d'.
+Proof. exact migrate_exact. Qed.
+Print Assumptions C33_migrate_exact.
+
+(* the version a file denotes does not change with its name *)
+Theorem C33_migrate_keeps_versions : forall f,
+  (forall v, ver_of f = Some v -> v < 2 ^ 63) -> ver_of (target f) = ver_of f.
+Proof. exact target_keeps_version. Qed.
+Print Assumptions C33_migrate_keeps_versions.
+
+(* a V1 directory: versions [map fst vc] (distinct, attached) with contents [map snd vc], plus files not detected as V1
+   (V2 manifests of other versions, detached manifests, staging/temporary files): the set of (version, content)
+   pairs is preserved, every manifest ends up under its V2 name, nothing else is touched, and a second run is a no-op *)
+Theorem C33_migrate : forall (vc : list (N * N)) (others d : dir),
+  NoDup (map fst vc) -> Forall (fun v => v < 2 ^ 63) (map fst vc) ->
+  Forall (fun e => is_v1_name (fst e) = false) others -> NoDup (map fst others) ->
+  (forall v, In v (map fst vc) -> ~ In (manifest_name V2 v) (map fst others)) ->
+  Permutation d (map (fun p => (manifest_name V1 (fst p), snd p)) vc ++ others) ->
+  exists d', migrate_scheme_to_v2 d = Ok d' /\
+             Permutation d' (map (fun p => (manifest_name V2 (fst p), snd p)) vc ++ others) /\
+             migrate_scheme_to_v2 d' = Ok d'.
+Proof. exact migrate_uniform. Qed.
+Print Assumptions C33_migrate.
+
+(* ---- non-vacuity and regression inputs (tests, not the theorems) ---- *)
+(* DESIGN §6 F3: lexically ordered store, V2 names of versions 1-2 plus one detached manifest *)
+Example C33_F3_input :
+  let dir := sort_lex [manifest_name V2 1; manifest_name V2 2; manifest_name V2 9223372036854775809] in
+  current_manifest_path false true [] dir = Found 2 (bs "18446744073709551613.manifest") V2.
+Proof. vm_compute. reflexivity. Qed.
+
+(* 68164c9: store not flagged lexically ordered, not local, V2 names, two versions, any order *)
+Example C33_unordered_v2_input :
+  current_manifest_path false false [] [manifest_name V2 1; manifest_name V2 2] = Found 2 (manifest_name V2 2) V2 /\
+  current_manifest_path false false [] [manifest_name V2 2; manifest_name V2 1] = Found 2 (manifest_name V2 2) V2.
+Proof. split; vm_compute; reflexivity. Qed.
+
+(* the hypotheses of C33_latest are satisfiable by a non-trivial directory: V1 names straddling a power of ten
+   (9 sorts after 10 and 100 lexically), a detached manifest, a staging copy and a temp file, local store *)
+Example C33_latest_nonvacuous :
+  let vs := [9; 100; 10] in
+  let jk := [manifest_name V1 9223372036854775810; bs "7.manifest-cee4fbbb-eb19-4ea3-8ca7-54f5ec33dedc";
+             bs ".tmp_7.manifest_9c100374-3298-4537-afc6-f5ee7913666d"] in
+  Forall (fun v => v < 2 ^ 63) vs /\ forallb (fun f => match valid_entry f with None => true | _ => false end) jk = true /\
+  current_manifest_path true false (jk ++ map (manifest_name V1) vs) (sort_lex (map (manifest_name V1) vs ++ jk))
+  = Found 100 (bs "100.manifest") V1.
+Proof. split; [repeat constructor|]. split; vm_compute; reflexivity. Qed.
+
+(* sweep of the round trip and of the order over boundary values, both schemes (a test) *)
+Example C33_boundary_sweep :
+  let vs := [0; 1; 9; 10; 11; 99; 100; 999999999; 1000000000; 9999999999999999999 / 10; 9223372036854775806; 9223372036854775807] in
+  forallb (fun v => match parse_version V1 (manifest_name V1 v), parse_version V2 (manifest_name V2 v) with
+                    | Some a, Some b => (a =? v) && (b =? v) | _, _ => false end) vs = true /\
+  forallb (fun a => forallb (fun b => Bool.eqb (a <? b) (lex_ltb (manifest_name V2 b) (manifest_name V2 a))) vs) vs = true /\
+  forallb (fun d => match parse_version V1 (manifest_name V1 d), parse_version V2 (manifest_name V2 d) with
+                    | None, None => true | _, _ => false end) [9223372036854775808; 9223372036854775809; 18446744073709551615] = true.
+Proof. repeat split; vm_compute; reflexivity. Qed.
+
+(* migration of a small V1 directory with a detached manifest and a V2 manifest of another version *)
+Example C33_migrate_nonvacuous :
+  migrate_scheme_to_v2 [(manifest_name V1 1, 11); (manifest_name V1 10, 12); (manifest_name V2 3, 13);
+                        (manifest_name V1 9223372036854775809, 14); (bs "irrelevant", 15)]
+  = Ok [(manifest_name V2 10, 12); (manifest_name V2 1, 11); (manifest_name V2 3, 13);
+        (manifest_name V1 9223372036854775809, 14); (bs "irrelevant", 15)].
+Proof. vm_compute. reflexivity. Qed.
